@@ -75,13 +75,36 @@ Record build_info := {
   bi_build_order : list str }.      (* build order (info-export order) *)
 
 Inductive nobuild := NotAllowed | NotAncestor | Unresolved | BuildDepCycle.
-Inductive cfg_result := Built (info : build_info) (entries : list str) | NoBuild (why : nobuild).
+Inductive cfg_result := Built (info : build_info) (entries : list stmt) | NoBuild (why : nobuild).
 
 Definition rule_to_nrule (r : rule) : nrule :=               (* From<&Rule> for NinjaRuleBuilder *)
   {| nr_name := r_name r; nr_command := r_cmd r;
      nr_description := Some (match r_description r with Some d => d | None => r_name r end);
      nr_export := r_export r; nr_deps := r_gcc_deps r; nr_rspfile := r_rspfile r;
      nr_rspfile_content := r_rspfile_content r; nr_pool := r_pool r; nr_always := r_always r |}.
+
+(* the build's global env, generate.rs:436-486: built-ins, the builder's (inherited) context env
+   with builder/app inserted, the selected modules' global envs in reverse selection order, the
+   reserved variables (inserted, i.e. replacing), then the -D assignments *)
+Definition build_context_env (bctx : context) (binary : module) : env :=
+  env_insert (S_ "app") (Single (m_name binary))
+    (env_insert (S_ "builder") (Single (c_name bctx)) (odflt [] (c_env bctx))).
+
+Definition reserved_env (b : bag) (builder : nat) (ms : list module) (relpath : str) (e : env) : env :=
+  let names := map m_name ms in
+  let used_contexts := map c_name (ctxs_of b (chain b builder)) in
+  let used_modules := filter (fun n => negb (is_prefix (S_ "context::") n)) names in
+  env_insert (S_ "contexts") (EList used_contexts)
+    (env_insert (S_ "modules") (EList used_modules)
+       (env_insert (S_ "relroot") (Single (relroot relpath))
+          (env_insert (S_ "relpath") (Single relpath) e))).
+
+Definition global_env (b : bag) (le : lazeenv) (builder : nat) (bctx : context) (binary : module)
+           (ms : list module) (relpath : str) (cli_env : option env) : env :=
+  let g0 := merge (base_env le) (build_context_env bctx binary) in
+  let g1 := fold_left (fun e m => merge e (m_env_global m)) (rev ms) g0 in
+  let g2 := reserved_env b builder ms relpath g1 in
+  match cli_env with Some ce => merge g2 ce | None => g2 end.
 
 Section Gen.
   Variable H : list ascii -> N.              (* DefaultHasher *)
@@ -97,12 +120,12 @@ Section Gen.
 
   (* per-build mutable state of the module loop *)
   Record loopst := {
-    ls_entries : list str;                         (* ninja_entries: IndexSet<String> *)
+    ls_entries : list stmt;                        (* ninja_entries: IndexSet<String> *)
     ls_objects : list str;
     ls_depfiles : list (str * list str) }.         (* module_build_dep_files *)
 
-  Definition add_entry (s : str) (st : loopst) : loopst :=
-    {| ls_entries := iset_insert s (ls_entries st); ls_objects := ls_objects st; ls_depfiles := ls_depfiles st |}.
+  Definition add_entry (s : stmt) (st : loopst) : loopst :=
+    {| ls_entries := sset_insert s (ls_entries st); ls_objects := ls_objects st; ls_depfiles := ls_depfiles st |}.
   Definition add_object (o : str) (st : loopst) : loopst :=
     {| ls_entries := ls_entries st; ls_objects := ls_objects st ++ [o]; ls_depfiles := ls_depfiles st |}.
   Definition add_depfiles (name : str) (files : list str) (st : loopst) : loopst :=
@@ -118,16 +141,25 @@ Section Gen.
 
   Definition all_sources (m : module) (ms : list module) : list str := m_sources m ++ optional_sources m ms.
 
+  Definition e_missing_ext := EOther (S_ "missing-extension").
+  Definition e_no_rule := EOther (S_ "no-rule").
+  Definition e_missing_link := EOther (S_ "missing-link-rule").
+  Definition e_postlink_out := EOther (S_ "postlink-no-out").
+
+  Definition e_rule_no_out := EOther (S_ "rule-no-out").
+
   (* one source of a module using the default rules, generate.rs:851-917 *)
   Definition compile_source (rules : list (str * rule)) (module_rules : list (str * nrule))
              (flat : fenv) (objdir builder_name binary_name srcdir : str)
              (combined : option (list str)) (deps_hash : N) (local_deps : option (list str))
              (st : loopst) (source : str) : res loopst :=
-    rbind (unwrap_expand 6 (expand_eval EV flat PEmpty (path_push srcdir source))) (fun srcpath =>
-    rbind (opt_unwrap 7 (extension srcpath)) (fun ext =>
-    rbind (opt_unwrap 8 (alookup ext rules)) (fun rule =>
-    rbind (opt_unwrap 9 (alookup ext module_rules)) (fun nrule =>
-    rbind (opt_unwrap 10 (r_out rule)) (fun rout =>
+    rbind (expand_eval EV flat PEmpty (path_push srcdir source)) (fun srcpath =>
+    rbind (match extension srcpath with
+           | Some ext => match alookup ext rules, alookup ext module_rules with
+                         | Some r, Some nr => Ok (r, nr)
+                         | _, _ => Err e_no_rule end
+           | None => Err e_no_rule end) (fun '(rule, nrule) =>
+    rbind (match r_out rule with Some o => Ok o | None => Err e_rule_no_out end) (fun rout =>
     let rule_h := rule_hash H nrule in
     let out_ext := if r_shareable rule then show_dec (N.lxor rule_h deps_hash) ++ ch_dot :: rout else rout in
     let out := with_extension srcpath out_ext in
@@ -135,18 +167,13 @@ Section Gen.
                              else path_push (path_push objdir builder_name) binary_name) out in
     let b := {| nb_rule := nr_name nrule; nb_inputs := Some [srcpath]; nb_outs := [object];
                 nb_deps := option_map sort_paths combined; nb_env := None; nb_always := nr_always nrule |} in
-    let st1 := add_object object (add_entry (show_build b) st) in
+    let st1 := add_object object (add_entry (SBuild b) st) in
     Ok (match local_deps with
-        | Some ld => add_entry (show_build {| nb_rule := S_ "phony"; nb_inputs := None; nb_outs := [srcpath];
-                                              nb_deps := Some (sort_paths ld); nb_env := None;
-                                              nb_always := false |}) st1
+        | Some ld => add_entry (SBuild {| nb_rule := S_ "phony"; nb_inputs := None; nb_outs := [srcpath];
+                                          nb_deps := Some (sort_paths ld); nb_env := None;
+                                          nb_always := false |}) st1
         | None => st1
-        end)))))).
-
-  Definition e_missing_ext := EOther (S_ "missing-extension").
-  Definition e_no_rule := EOther (S_ "no-rule").
-  Definition e_missing_link := EOther (S_ "missing-link-rule").
-  Definition e_postlink_out := EOther (S_ "postlink-no-out").
+        end)))).
 
   (* the per-module body, generate.rs:598-918 (without downloads) *)
   Definition module_step (rules : list (str * rule)) (merge_opts : option (list (str * mergeopt)))
@@ -157,16 +184,14 @@ Section Gen.
     | None => Ok st                                                   (* context module *)
     | Some srcdir =>
       rbind (flatten_with_opts_option merge_opts menv) (fun flat =>
-      rbind (unwrap_expand 4 (expand_eval EV flat PIgnore srcdir)) (fun _ =>
+      rbind (expand_eval EV flat PIgnore srcdir) (fun _ =>
       let have_global := match global_deps with [] => false | _ => true end in
       let mdeps1 := if have_global && negb (m_is_global_build_dep m)
                     then Some (fold_left (fun acc d => mset_insert d acc) (odflt [] mdeps) global_deps)
                     else mdeps in
       rbind (match mdeps1 with
              | Some l => rmap Some
-                 (fold_left (fun acc d => rbind acc (fun files =>
-                               rbind (opt_unwrap 5 (alookup (m_name d) (ls_depfiles st)))
-                                     (fun fs => Ok (iset_union files fs)))) l (Ok []))
+                 (Ok (fold_left (fun files d => iset_union files (odflt [] (alookup (m_name d) (ls_depfiles st)))) l []))
              | None => Ok None end) (fun imported =>
       let st1 := match m_build_dep_files m with
                  | Some l => add_depfiles (m_name m) l st
@@ -178,18 +203,18 @@ Section Gen.
       let deps_hash := match combined with Some l => H (enc_usize (length l) ++ flat_map enc_path l) | None => 0%N end in
       match m_build m with
       | Some cb =>
-          rbind (unwrap_expand 11 (expand_eval EV flat PEmpty (intercalate (S_ " && ") (cb_cmd cb)))) (fun cmd =>
+          rbind (expand_eval EV flat PEmpty (intercalate (S_ " && ") (cb_cmd cb))) (fun cmd =>
           let r := named H {| nr_name := S_ "BUILD"; nr_command := cmd; nr_description := Some (S_ "BUILD ${out}");
                               nr_export := None; nr_deps := cb_gcc_deps cb; nr_rspfile := None;
                               nr_rspfile_content := None; nr_pool := None; nr_always := false |} in
-          rbind (rmapM (fun s => unwrap_expand 12 (expand_eval EV flat PEmpty (path_push srcdir s))) (all_sources m ms)) (fun srcs =>
-          rbind (rmapM (fun o => unwrap_expand 13 (expand_eval EV flat PEmpty o)) (odflt [] (cb_out cb))) (fun outs =>
+          rbind (rmapM (fun s => expand_eval EV flat PEmpty (path_push srcdir s)) (all_sources m ms)) (fun srcs =>
+          rbind (rmapM (fun o => expand_eval EV flat PEmpty o) (odflt [] (cb_out cb))) (fun outs =>
           let outs_hash := H (flat_map enc_path outs) in
           let b := {| nb_rule := nr_name r; nb_inputs := Some srcs; nb_outs := sort_paths outs;
                       nb_deps := option_map sort_paths combined; nb_env := None; nb_always := false |} in
           let alias_name := S_ "outs_" ++ show_dec outs_hash in
           let st2 := add_depfiles (m_name m) [alias_name] st1 in
-          Ok (add_entry (alias_multiple outs alias_name) (add_entry (show_build b) (add_entry (show_rule r) st2))))))
+          Ok (add_entry (SBuild (alias_multiple_build outs alias_name)) (add_entry (SBuild b) (add_entry (SRule r) st2))))))
       | None =>
           (* map extension -> rule (evaluated for every source, as `or_insert(expr)` does) *)
           rbind (fold_left (fun acc source => rbind acc (fun '(mr, s) =>
@@ -201,7 +226,7 @@ Section Gen.
                         | Some rule =>
                             rbind (to_ninja flat rule) (fun nr =>
                             Ok (match alookup ext mr with Some _ => mr | None => mr ++ [(ext, nr)] end,
-                                add_entry (show_rule nr) s))
+                                add_entry (SRule nr) s))
                         end
                     end)) (all_sources m ms) (Ok ([], st1))) (fun '(module_rules, st2) =>
           fold_left (fun acc source => rbind acc (fun s =>
@@ -277,22 +302,11 @@ Section Gen.
           let provs := provby rst in
           let rules := collect_rules b builder in
           let merge_opts := c_var_options bctx in
-          (* global env *)
-          let build_env0 := env_insert (S_ "app") (Single (m_name binary))
-                              (env_insert (S_ "builder") (Single (c_name bctx)) (odflt [] (c_env bctx))) in
-          let g0 := merge (base_env le) build_env0 in
-          let g1 := fold_left (fun e m => merge e (m_env_global m)) (rev ms) g0 in
           rbind (opt_unwrap 102 (m_relpath binary)) (fun relpath =>
           let names := map m_name ms in
-          let used_contexts := map c_name (ctxs_of b (chain b builder)) in
-          let used_modules := filter (fun n => negb (is_prefix (S_ "context::") n)) names in
-          let g2 := env_insert (S_ "contexts") (EList used_contexts)
-                      (env_insert (S_ "modules") (EList used_modules)
-                         (env_insert (S_ "relroot") (Single (relroot relpath))
-                            (env_insert (S_ "relpath") (Single relpath) g1))) in
-          let genv := match cli_env with Some ce => merge g2 ce | None => g2 end in
+          let genv := global_env b le builder bctx binary ms relpath cli_env in
           rbind (flatten_with_opts_option merge_opts genv) (fun gflat =>
-          rbind (unwrap_expand 3 (expand gflat PEmpty (S_ "${outfile}"))) (fun outfile =>
+          rbind (expand gflat PEmpty (S_ "${outfile}")) (fun outfile =>
           let objdir := path_push (le_build_dir le) (S_ "objects") in
           let global_deps := filter m_is_global_build_dep ms in
           rbind (rmapM (fun m => rmap (fun eb => (m, fst eb, snd eb)) (build_env genv ms provs m)) ms) (fun mods =>
@@ -323,7 +337,7 @@ Section Gen.
               rbind (to_ninja gflat lrule) (fun nlink =>
               let lb := {| nb_rule := nr_name nlink; nb_inputs := Some (ls_objects st); nb_outs := [outfile];
                            nb_deps := gfiles; nb_env := None; nb_always := nr_always nlink |} in
-              let entries := iset_insert (show_build lb) (iset_insert (show_rule nlink) (ls_entries st)) in
+              let entries := sset_insert (SBuild lb) (sset_insert (SRule nlink) (ls_entries st)) in
               rbind (match get_rule (S_ "POST_LINK") rules with
                      | None => Ok (outfile, entries)
                      | Some prule =>
@@ -334,7 +348,7 @@ Section Gen.
                              rbind (to_ninja gflat prule) (fun np =>
                              let pb := {| nb_rule := nr_name np; nb_inputs := Some [outfile]; nb_outs := [new_out];
                                           nb_deps := None; nb_env := None; nb_always := nr_always np |} in
-                             Ok (new_out, iset_insert (show_build pb) (iset_insert (show_rule np) entries)))
+                             Ok (new_out, sset_insert (SBuild pb) (sset_insert (SRule np) entries)))
                          end
                      end) (fun '(final_out, entries) =>
               rbind (collect_tasks b builder (ainsert (S_ "out") final_out gflat) ms) (fun tasks =>
@@ -394,7 +408,7 @@ Section Gen.
   Definition header (le : lazeenv) : str :=
     S_ "builddir = " ++ le_build_dir le ++ nl ++ S_ "build ALWAYS: phony" ++ nl.
 
-  Record gen_result := { gr_file : str; gr_builds : list build_info; gr_nobuilds : list (str * str * nobuild) }.
+  Record gen_result := { gr_stmts : list stmt; gr_file : str; gr_builds : list build_info; gr_nobuilds : list (str * str * nobuild) }.
 
   (* Generator::execute after loading: [keep] is the partitioner's filter on (builder, app) *)
   Definition generate (b : bag) (le : lazeenv) (bsel asel : selector) (local : option str)
@@ -407,9 +421,9 @@ Section Gen.
                          (pairs bs bins) in
     rbind (rmapM (fun bm => rmap (fun r => (bm, r)) (configure_build b le (fst bm) (snd bm) select disable cli_env)) tuples) (fun results =>
     let entries := fold_left (fun acc r => match snd r with
-                                           | Built _ es => fold_left (fun a e => iset_insert e a) es acc
+                                           | Built _ es => fold_left (fun a e => sset_insert e a) es acc
                                            | NoBuild _ => acc end) results [] in
-    Ok {| gr_file := header le ++ concat entries;
+    Ok {| gr_stmts := entries; gr_file := header le ++ concat (map show_stmt entries);
           gr_builds := flat_map (fun r => match snd r with Built i _ => [i] | NoBuild _ => [] end) results;
           gr_nobuilds := flat_map (fun r => match snd r with
                                             | NoBuild w => [(match bag_get b (fst (fst r)) with Some c => c_name c | None => [] end,
